@@ -630,6 +630,22 @@ func (s *Server) JournalLen() int {
 
 // KillIdleTxns rolls back every open transaction and releases all locks
 // (harness use between episodes after a violation-free run should find none).
+// KillIdle kills every hooked connection that is not inside a transaction (a
+// server restart / network cut seen by an idle pool); it returns their number.
+func (s *Server) KillIdle() int {
+	s.mu.Lock()
+	defer s.mu.Unlock()
+	n := 0
+	for _, c := range s.conns {
+		if c.noHook || c.closed || c.txn != nil {
+			continue
+		}
+		c.kill()
+		n++
+	}
+	return n
+}
+
 func (s *Server) OpenTxnCount() int {
 	s.mu.Lock()
 	defer s.mu.Unlock()
